@@ -746,6 +746,63 @@ func genC20(o *Out, rng *rand.Rand, tier string) {
 			}
 		}, "decoded-noncanonical4-every-method")
 	}
+	// a value that is changed for a moment and put back (a name list rewritten while a template is filled in, an option
+	// list tried with one more entry): whatever was read or printed while it was changed, once it is what it was it
+	// encodes and prints as it did
+	for k := 0; k < 16; k++ {
+		wire := [][]byte{{3, 'f', 'o', 'o', 3, 'c', 'o', 'm', 0, 3, 'b', 'a', 'r', 0xc0, 4}, {4, 'h', 'o', 's', 't'}, {1, 'a', 0, 1, 'b', 0},
+			{3, 'w', 'w', 'w', 7, 'e', 'x', 'a', 'm', 'p', 'l', 'e', 0, 2, 'f', 't', 0xc0, 4, 0xc0, 4}}[k%4]
+		var s subject
+		var names *[]string
+		switch k / 4 {
+		case 0:
+			l, err := rfc1035label.FromBytes(append([]byte(nil), wire...))
+			if err != nil {
+				continue
+			}
+			s, names = subjLabels(l), &l.Labels
+		case 1:
+			opt, err := dhcpv6.ParseOption(dhcpv6.OptionDomainSearchList, wire)
+			if err != nil {
+				continue
+			}
+			m := &dhcpv6.Message{MessageType: dhcpv6.MessageTypeReply}
+			m.AddOption(opt)
+			s, names = subj6(m), &m.Options.DomainSearchList().Labels
+		case 2:
+			opt, err := dhcpv6.ParseOption(dhcpv6.OptionFQDN, append([]byte{1}, wire...))
+			if err != nil {
+				continue
+			}
+			s, names = subjOpt6(opt), &opt.(*dhcpv6.OptFQDN).DomainName.Labels
+		default:
+			p, _ := dhcpv4.New(dhcpv4.WithGeneric(dhcpv4.OptionDNSDomainSearchList, wire))
+			q, err := dhcpv4.FromBytes(p.ToBytes())
+			if err != nil || q.DomainSearch() == nil {
+				continue
+			}
+			l := q.DomainSearch() // (the accessor decodes afresh: the packet is not touched by what follows)
+			s, names = subjLabels(l), &l.Labels
+		}
+		if len(*names) == 0 {
+			continue
+		}
+		ev := []any{safe(s.obs)}
+		saved := append([]string(nil), (*names)...)
+		(*names)[0] = "changed.for.a.moment"
+		if k%2 == 0 {
+			*names = append(*names, "one.more")
+		}
+		for _, r := range s.recv {
+			for _, m := range readOnlyMethods(r) {
+				callMethod(r, m) // (results while changed are nobody's business)
+			}
+		}
+		s.enc()
+		*names = append((*names)[:0], saved...)
+		ev = append(ev, safe(s.obs), safe(s.obs))
+		o.Emit(map[string]any{"proto": s.proto, "in": []int{}, "ev": ev}, "changed-and-put-back", append([]byte{byte(k)}, wire...), true)
+	}
 	// messages holding several instances of the same option type (accessors that merge or pick among them)
 	for k := 0; k < 12; k++ {
 		exhaustive(func(r *rand.Rand) subject {
